@@ -43,7 +43,7 @@ CLAIMS["C15"] = dict(
 
 # checks built by sub-engineers: their claim text lives in coq/<pid>/NOTES.md
 # ("claims.py snippet" code block); enabled here once reviewed and run.
-ENABLED_FROM_NOTES = ["C03", "C06", "C07", "C08", "C09", "C10", "C12", "C13", "C16", "C17", "C18", "C20"]
+ENABLED_FROM_NOTES = ["C03", "C05", "C06", "C07", "C08", "C09", "C10", "C12", "C13", "C16", "C17", "C18", "C20"]
 
 
 def _from_notes(pid):
